@@ -185,7 +185,11 @@ impl AsCborValue for CoseKey {
         if !self.base_iv.is_empty() {
             map.push((BASE_IV.to_cbor_value()?, Value::Bytes(self.base_iv)));
         }
-        let mut seen = BTreeSet::new();
+        // The labels of the typed fields emitted above are taken too.
+        let mut seen: BTreeSet<Label> = map
+            .iter()
+            .filter_map(|(l, _v)| Label::from_cbor_value(l.clone()).ok())
+            .collect();
         for (label, value) in self.params {
             if seen.contains(&label) {
                 return Err(CoseError::DuplicateMapKey);
